@@ -126,7 +126,7 @@ SprintfRef(kind, t, k) ==
       [] kind = "d"   -> Dec(k)
       [] kind = "sd"  -> t \o <<58>> \o Dec(k)
 
-NoNul(t) == \A j \in 1 .. Len(t) : t[j] # 0
+NoNul(t) == SelectInSeq(t, LAMBDA e : e = 0) = 0      \* (not a \A: TLC unfolds a quantifier in action position recursively)
 Seekable(kind) == kind \in {"file", "seek"}
 Kinds == {"file", "seek", "pipe", "pieces"}     \* regular file, regular file positioned at a non-zero offset,
                                                 \* pipe filled before the call, pipe fed in pieces by a concurrent writer
@@ -149,6 +149,33 @@ OpNewFromFp(kind, t) == /\ ~al /\ Len(t) <= MaxLenA /\ (Seekable(kind) => t # <<
                         /\ StepA("new_from_fp", <<kind, t>>, TRUE, FALSE, t, TRUE)
 OpNewFromFd(kind, t) == /\ ~al /\ Len(t) <= MaxLenA /\ (Seekable(kind) => t # <<>>)
                         /\ StepA("new_from_fd", <<kind, t>>, TRUE, FALSE, t, TRUE)
+
+(* Environment faults (direction B only: not part of the bounded Next).  The constructor / re-initialisation runs   *)
+(* while the environment - the harness's interposed read() or custom stream - serves the reads according to a         *)
+(* schedule (short reads, EINTR, EAGAIN / ECONNRESET / EIO at the k-th call).  What the environment actually did is   *)
+(* logged with the event: hard = a read failed with an error other than EINTR, eintr = a read was interrupted,        *)
+(* d = bytes delivered by all successful reads.                                                                       *)
+(*   S  short reads only                -> all bytes, as without faults ("however the reads are split")               *)
+(*   E  an interrupted read (EINTR)     -> all bytes (retried), OR the call is refused (no object / FALSE and an      *)
+(*                                         empty object) so that the caller can retry - NEVER a truncated or shifted  *)
+(*                                         value delivered as success                                                  *)
+(*   E  a failed read (any other errno) -> refused, OR success with exactly the d bytes that were delivered            *)
+(* A stream (FILE* ) knows only "error": every failure of its read function counts as hard.                            *)
+FaultOutcomes(t, hard, eintr, d) ==
+    IF hard THEN {[ok |-> FALSE, s |-> <<>>], [ok |-> TRUE, s |-> Take(t, d)]}
+    ELSE IF eintr THEN {[ok |-> FALSE, s |-> <<>>], [ok |-> TRUE, s |-> t]}
+    ELSE {[ok |-> TRUE, s |-> t]}
+FaultArgsOK(ctor, kind, t, hard, eintr, d) ==
+    /\ ctor \in {"fp", "fd"} /\ kind \in {"file", "seek", "pipe"} /\ t # <<>>
+    /\ hard \in BOOLEAN /\ eintr \in BOOLEAN /\ d \in 0 .. Len(t)
+OpNewFault(ctor, kind, t, sched, hard, eintr, d) ==
+    /\ ~al /\ FaultArgsOK(ctor, kind, t, hard, eintr, d) /\ Len(t) <= MaxLenA
+    /\ \E o \in FaultOutcomes(t, hard, eintr, d) :
+          StepA("new_fault", <<ctor, kind, t, sched, hard, eintr, d>>, o.ok, FALSE, o.s, o.ok)       \* refused: no object
+OpReinitFault(ctor, kind, t, sched, hard, eintr, d) ==
+    /\ al /\ FaultArgsOK(ctor, kind, t, hard, eintr, d) /\ Len(t) <= MaxLenA
+    /\ \E o \in FaultOutcomes(t, hard, eintr, d) :
+          StepA("reinit_fault", <<ctor, kind, t, sched, hard, eintr, d>>, o.ok, FALSE, o.s, TRUE)    \* refused: EMPTY object
 
 (* mutators of A                                                                                *)
 OpAppend(src)  == /\ HasOther(src) /\ Len(a) + Len(Other(src)) <= MaxLenA
